@@ -26,7 +26,8 @@ void vh_nontrivial(void);             /* current case is non-trivial by the engi
 void vh_count(const char *name, long n);   /* free-form extra counters (max 16 names) */
 void vh_violation(const char *site, const char *fmt, ...) __attribute__((format(printf, 2, 3)));
 void vh_note(const char *fmt, ...) __attribute__((format(printf, 1, 2)));
-int vh_replaying(void);               /* --only given */
+int vh_replaying(void);
+void vh_quiet(int q);                 /* suppress violation reporting (redundant re-computations) */               /* --only given */
 int vh_deadline_passed(void);
 
 /* ---------- ledger (library allocations only, via --wrap) ---------- */
